@@ -187,10 +187,13 @@ class HList(HObjBase):
         self.segs = list(segs or [])
         self.is_set = is_set
         self.sorted_by = None
+        self.one_shot = False   # a generator: whoever iterates over it first uses it up
+        self.consumed = False
 
     def clone(self):
         c = HList(self.segs, is_set=self.is_set)
         c.sorted_by = self.sorted_by
+        c.one_shot, c.consumed = self.one_shot, self.consumed
         return c
 
     def concrete(self):
